@@ -108,6 +108,41 @@ func (l *locksetState) onFieldAddr(p *Path, fr *frame, instr *ssa.FieldAddr, bas
 	l.mu.Unlock()
 }
 
+// callHeld: functions that, once the node is running (path tag
+// "serialised"), must only be called with the named mutex held. This is the
+// premise of the argument that concurrent connects/disconnects serialise at
+// the registry mutex, so that registration and its publication are atomic.
+var callHeld = map[string]string{
+	"(*" + pikoMod + "/server/cluster.State).AddLocalEndpoint":    "upstream.LoadBalancedManager.mu",
+	"(*" + pikoMod + "/server/cluster.State).RemoveLocalEndpoint": "upstream.LoadBalancedManager.mu",
+	"(*" + pikoMod + "/server/gossip.syncer).onLocalEndpointUpdate": "upstream.LoadBalancedManager.mu",
+}
+
+func (l *locksetState) onCall(p *Path, caller *frame, fn *ssa.Function) {
+	if !p.tags["serialised"] {
+		return
+	}
+	need, ok := callHeld[fn.String()]
+	if !ok {
+		return
+	}
+	for m := range p.held {
+		if p.lockNames[m] == need {
+			return
+		}
+	}
+	where := ""
+	if caller != nil && caller.cur != nil {
+		where = caller.posOf(caller.cur)
+	}
+	l.mu.Lock()
+	k := fmt.Sprintf("%s called without %s held (registration and publication are no longer atomic)", fn.String(), need)
+	if _, ok := l.unguarded[k]; !ok {
+		l.unguarded[k] = where
+	}
+	l.mu.Unlock()
+}
+
 // report returns unguarded accesses and lock-order cycles.
 func (l *locksetState) report() []lockViolation {
 	var out []lockViolation
